@@ -31,6 +31,11 @@ func init() {
 			line  int
 		}
 		var accs []acc
+		type site struct {
+			fn, what, file string
+			line           int
+		}
+		var sites []site
 		fset := token.NewFileSet()
 		sawField := false
 		for _, e := range ents {
@@ -67,6 +72,34 @@ func init() {
 				if !ok || fd.Body == nil {
 					continue
 				}
+				// receiver-qualified name, e.g. "ReverseProxy.ServeHTTP", "conn.readRequest", "newConn"
+				qual := fd.Name.Name
+				if fd.Recv != nil && len(fd.Recv.List) == 1 {
+					t := fd.Recv.List[0].Type
+					if st, ok := t.(*ast.StarExpr); ok {
+						t = st.X
+					}
+					if id, ok := t.(*ast.Ident); ok {
+						qual = id.Name + "." + fd.Name.Name
+					}
+				}
+				ast.Inspect(fd.Body, func(x ast.Node) bool {
+					switch v := x.(type) {
+					case *ast.CallExpr:
+						if sel, ok := v.Fun.(*ast.SelectorExpr); ok && sel.Sel.Name == "GetServerConf" {
+							sites = append(sites, site{qual, "GetServerConf", n, fset.Position(v.Pos()).Line})
+						}
+					case *ast.SelectorExpr:
+						if v.Sel.Name == "ServerConf" {
+							sites = append(sites, site{qual, "ServerConf", n, fset.Position(v.Pos()).Line})
+						}
+						if v.Sel.Name == "GetServerConf" {
+							// method value (not a call) would escape the call scan: record it as well
+							sites = append(sites, site{qual, "GetServerConf-ref", n, fset.Position(v.Pos()).Line})
+						}
+					}
+					return true
+				})
 				type ev struct {
 					pos  token.Pos
 					kind int // 0 access-read, 1 access-write, 2 Lock, 3 RLock, 4 Unlock
@@ -154,6 +187,38 @@ func init() {
 				sep = ""
 			}
 			fmt.Fprintf(&b, "  (%s, %v, %d)%s  -- %s:%d\n", leanStr(a.fn), a.write, a.mode, sep, a.file, a.line)
+		}
+		b.WriteString("]\n\n")
+		// a call X.GetServerConf() is seen twice (call + selector): keep the call only
+		var ss []site
+		for _, x := range sites {
+			if x.what == "GetServerConf-ref" {
+				dup := false
+				for _, y := range sites {
+					if y.what == "GetServerConf" && y.file == x.file && y.line == x.line {
+						dup = true
+					}
+				}
+				if dup {
+					continue
+				}
+			}
+			ss = append(ss, x)
+		}
+		sort.Slice(ss, func(i, j int) bool {
+			if ss[i].file != ss[j].file {
+				return ss[i].file < ss[j].file
+			}
+			return ss[i].line < ss[j].line
+		})
+		b.WriteString("/-- every place in package bfe_server where the CURRENT server data conf is obtained: a call of\n    `GetServerConf()` or a direct access `X.ServerConf`: (receiver-qualified function, what) -/\n")
+		b.WriteString("def snapshotSites : List (String × String) := [\n")
+		for i, a := range ss {
+			sep := ","
+			if i == len(ss)-1 {
+				sep = ""
+			}
+			fmt.Fprintf(&b, "  (%s, %s)%s  -- %s:%d\n", leanStr(a.fn), leanStr(a.what), sep, a.file, a.line)
 		}
 		b.WriteString("]\n")
 		b.WriteString(footer("C15"))
